@@ -630,8 +630,7 @@ class Selector(cssutils.util.Base2):
         for item in self.seq:
             type_, val = item.type, item.value
             if (
-                type_.endswith('-selector')
-                or type_ == 'universal'
+                (type_.endswith('-selector') or type_ == 'universal')
                 and isinstance(val, tuple)
                 and val[0] not in (None, '*')
             ):
